@@ -57,7 +57,7 @@ class Worker:
             return "done"
         self.ack.clear()
         self.go.set()
-        if not self.ack.wait(20):
+        if not self.ack.wait(8):
             raise RuntimeError("worker %s stuck" % self.name)
         return self.kind
 
@@ -153,6 +153,7 @@ def main():
         out["dist"][k] = out["dist"].get(k, 0) + 1
 
     progsA = [WITNESS]
+    stuck = [0]
     tries = 0
     while len(progsA) < cfg["n_progs"] and tries < 2000:
         tries += 1
@@ -170,8 +171,16 @@ def main():
                 try:
                     ra, gaps, rbs = run_schedule(pa, [pb], plan)
                 except RuntimeError as ex:
-                    out["cases"].append({"exp": pa, "plan": plan, "gaps": [], "res": {"raised": repr(ex)},
-                                         "solo": sres, "b_ok": False, "b": pb})
+                    # a thread cannot get on while another one is paused inside its differentiation: a deadlock under
+                    # this schedule (the paused thread holds something the other needs).  Two such schedules are enough.
+                    out["cases"].append({"exp": pa, "plan": plan, "gaps": [], "res": {"raised": "deadlock: " + repr(ex)},
+                                         "solo": sres, "b_ok": False, "b": pb, "deadlock": True})
+                    stuck[0] += 1
+                    if stuck[0] >= 2:
+                        print(json.dumps(out))
+                        sys.stdout.flush()
+                        import os
+                        os._exit(0)          # blocked worker threads would keep the interpreter alive
                     continue
                 dist("A-events=%d" % len(gaps))
                 dist("interfering" if any(g[1] or g[2] for g in gaps) else "no-overlap")
